@@ -108,6 +108,8 @@ RowOK(r) ==
             /\ Len(dec) = Len(r.sigs) /\ \A k \in 1..Len(dec) : dec[k].bytes = r.sigs[k]   \* each decoded once, in order
             /\ Len(enc) = 1 /\ enc[1].bytes = r.ret /\ Len(r.ret) = 96
             /\ (Len(r.sigs) = 1 => r.ret = r.sigs[1])        \* the canonical encoding of one accepted point is itself
+            \* a sum that is the identity is encoded as the ZCash infinity word: 0xc0 followed by 95 zero bytes
+            /\ (enc[1].p = r.z2 => r.ret = <<192>> \o [k \in 1..95 |-> 0])
             /\ LET left == SumTree([k \in 1..(Len(dec) + 1) |-> IF k = 1 THEN r.z2 ELSE dec[k - 1].out], adds, 1)
                IN left = <<enc[1].p>> \/ left = <<r.z2, enc[1].p>> \/ left = <<enc[1].p, r.z2>>
     [] OTHER -> FALSE
